@@ -30,11 +30,13 @@ def main():
     suite = "--no-suite" not in sys.argv
     props = [a.split("=")[1] for a in sys.argv if a.startswith("--props=")]
     meta_src = json.load(open(os.path.join(src, "meta.json"))) if os.path.exists(os.path.join(src, "meta.json")) else {}
+    src = os.path.abspath(src)
     prop = meta_src.get("property") or name[:3]
     dst = os.path.join(ROOT, "seeded", name)
     os.makedirs(dst, exist_ok=True)
     for f in ("patch.diff", "demo.py"):
-        shutil.copy(os.path.join(src, f), os.path.join(dst, f))
+        if os.path.realpath(os.path.join(src, f)) != os.path.realpath(os.path.join(dst, f)):
+            shutil.copy(os.path.join(src, f), os.path.join(dst, f))
     wt = "/tmp/seedwt_%s_%d" % (name, os.getpid())
     sh("git -C /repo worktree add -q --detach %s HEAD" % wt)
     old = json.load(open(os.path.join(dst, "meta.json"))) if os.path.exists(os.path.join(dst, "meta.json")) else {}
